@@ -196,6 +196,15 @@ example : fromCsv "\"ab".toList = some [["ab".toList]] ∧ fromCsv "a\"b,c\n".to
   unfold fromCsv
   rw [norm_no_cr _ (by decide), norm_no_cr _ (by decide)]
   decide
+/-- the `comma` option is read the same way by both directions: a delimiter that from_csv accepts is
+    the one to_csv writes with, for EVERY option string (ASCII or multi-byte) -/
+theorem csv_option_delim_agree (opt : List UInt8) (c : Char) (h : fromCsvDelim opt = some c) :
+    toCsvDelim opt = some c := delim_agree opt c h
+
+example : fromCsvDelim [0xC2, 0xA7] = some (Char.ofNat 0xC2) ∧ toCsvDelim [0xC2, 0xA7] = some (Char.ofNat 0xC2) ∧
+    fromCsvDelim [59] = some ';' ∧ fromCsvDelim [] = some ',' ∧ fromCsvDelim [35] = none ∧ toCsvDelim [34] = none := by decide
+/-- S3-C14-1 (to_csv reads the first rune): the two sides then disagree for "§" -/
+example : toCsvDelimRune ['§'] = some '§' ∧ fromCsvDelim [0xC2, 0xA7] ≠ some '§' := by decide
 end csv
 
 /-! ## ISO-8859-1 -/
